@@ -397,6 +397,46 @@ func HarnessC01Composition() {
 	checkC01(&s, d)
 }
 
+// F6b: composition over string leaves with and without a format: each alternative must be judged
+// with its own format (and its own length bounds), whatever stands at the other positions
+func genStringLeaf() spec.Schema {
+	s := schemaOfType("string")
+	switch verifChoose(4) {
+	case 1:
+		s.Format = "date"
+	case 2:
+		s.MaxLength = ptrI(3)
+	case 3:
+		s.Format = "date"
+		s.MinLength = ptrI(2)
+	}
+	return s
+}
+
+func HarnessC01StringComposition() {
+	s := spec.Schema{}
+	n := 2 + verifChoose(1+verifTier())
+	alts := make([]spec.Schema, 0, n)
+	for i := 0; i < n; i++ {
+		alts = append(alts, genStringLeaf())
+	}
+	switch verifChoose(3) {
+	case 0:
+		s.OneOf = alts
+	case 1:
+		s.AnyOf = alts
+	default:
+		s.AllOf = alts
+	}
+	var d interface{}
+	if verifChoose(4) == 0 {
+		d = 1.0
+	} else {
+		d = []string{"a", "hello", "2020-01-01"}[verifChoose(3)]
+	}
+	checkC01(&s, d)
+}
+
 // F7: enum with null / mixed kinds / nested values
 func HarnessC01Enum() {
 	s := spec.Schema{}
